@@ -43,18 +43,20 @@ def stage_work(idx, stage, nranks):
         return {} if stage == 0 else {pre + f'l{i}': {'A': 8 + i, 'G': 8} for i in range(2)}
     if idx == 7:   # only the last-but-one... every odd stage is empty
         return {} if stage % 2 == 1 else {pre + f'l{i}': {'A': 3, 'G': 5 + i} for i in range(3)}
+    if idx == 8:   # seven layers of distinct, slowly decreasing totals (no ties: exactly one valid greedy placement over the stage)
+        return {pre + f'l{i}': {'A': c, 'G': 1} for i, c in enumerate([9, 7, 5, 4, 3, 2, 1])}
     raise IndexError(idx)
 
 
-NFAM = 8
+NFAM = 9
 
 
 class C12(Prop):
     id = 'C12'
     title = 'GPT-NeoX assignment is consistent across the 3-D topology'
-    rule = ('Exhaustive: every (pipe, data, model) with product <= 24 (quick) / <= 64 (thorough), EVERY local rank, 8 families of per-stage cost '
+    rule = ('Exhaustive: every (pipe, data, model) with product <= 24 (quick) / <= 64 (thorough), EVERY local rank, 9 families of per-stage cost '
             'dictionaries (uniform, ties with more layers than ranks, non-square MLP costs with A != G, zeros + one giant, single layer, equal '
-            'totals with different splits, a first stage without any layer, every odd stage without layers) plus Hypothesis-drawn topologies and dictionaries. GPTNeoXAssignment is instantiated on every rank '
+            'totals with different splits, a first stage without any layer, every odd stage without layers, seven layers of distinct totals) plus Hypothesis-drawn topologies and dictionaries. GPTNeoXAssignment is instantiated on every rank '
             'inside a static fake world in which torch.distributed.new_group records its arguments per rank. Oracle: per stage all ranks agree '
             'on one inverse worker per layer, it is a rank of the stage, both factors coincide and the assignment is a valid least-loaded greedy '
             'placement (tie-tolerant replay of C17 with the stage as the only group, co-located); factor_worker is in the rank\'s model-parallel '
